@@ -35,6 +35,9 @@ type Connection struct {
 	// Bytes which were read unencrypted while the session switched to encryption
 	pending []byte
 
+	// Error which ended decrypting incoming data
+	readErr error
+
 	// Serializes writes because responses and notifications are written by different goroutines
 	writeMutex sync.Mutex
 }
@@ -86,6 +89,11 @@ func (con *Connection) DecryptedRead(b []byte) (int, error) {
 		return 0, nil
 	}
 
+	if con.readErr != nil {
+		// No more data is decrypted after a frame was rejected
+		return 0, con.readErr
+	}
+
 	for con.readBuffer == nil {
 		if con.encrypted == nil {
 			var r io.Reader = con.connection
@@ -122,6 +130,7 @@ func (con *Connection) DecryptedRead(b []byte) (int, error) {
 		} else {
 			log.Debug.Println("Decryption failed:", err)
 			con.connection.Close()
+			con.readErr = err
 		}
 		return 0, err
 	}
